@@ -451,18 +451,19 @@ def check_scope_lookup(ck, F, S):
         firsts = [r for r in S.run(mk['id']) if r[1] == 'return']
     except Unsupported as e:
         raise AnalysisBroken(f'{mk["id"]}: {e}')
-    if len(firsts) != 1:
-        raise AnalysisBroken(f'{mk["id"]}: {len(firsts)} paths on an empty scope')
-    st1 = firsts[0][0]
+    if not firsts:
+        raise AnalysisBroken(f'{mk["id"]}: no returning path on an empty scope')
     Qn = ('param', 100)
-    try:
-        outs = S.run(op['id'], args=[Qn], state=st1.fork())
-    except Unsupported as e:
-        raise AnalysisBroken(f'{op["id"]}: {e}')
-    base = len(st1.effects)
     kinds = set()
     problems = []
-    for st, k, v in outs:
+    outs_all = []
+    for st1_, _k1, _v1 in firsts:          # every way the first declaration can go leaves a scope to look names up in
+        try:
+            outs_all += [(st1_, o) for o in S.run(op['id'], args=[Qn], state=st1_.fork())]
+        except Unsupported as e:
+            raise AnalysisBroken(f'{op["id"]}: {e}')
+    for st1, (st, k, v) in outs_all:
+        base = len(st1.effects)
         if k != 'return':
             problems.append(f'may throw {v}')
             continue
